@@ -62,6 +62,8 @@ class GenericListTransformer(Generic[T]):
         self._feature_dims = feature_dims
         self._iter_kwargs = iter_kwargs
 
+        # Fitting again must not reuse the transformers of an earlier fit
+        self.transformers = []
         for i, x in enumerate(X):
             # Add transformer specific keyword arguments
             # For iterable kwargs, use the i-th element of the iterable
